@@ -249,6 +249,11 @@ func genC17(seed uint64, idx int, tier string) interface{} {
 	r := NewRNG(rs)
 	pl := &C17Plan{Property: "C17", RunSeed: rs, Idx: idx}
 	n := []int{1, 2, 2, 3}[r.Intn(4)]
+	maxOps := 40
+	if tier == "thorough" {
+		n = []int{1, 2, 3, 3, 4}[r.Intn(5)]
+		maxOps = 60
+	}
 	for i := 0; i < n; i++ {
 		ir := r.Fork(uint64(10 + i))
 		fresh := fmt.Sprintf("%d", idx)
@@ -263,8 +268,8 @@ func genC17(seed uint64, idx int, tier string) interface{} {
 		for _, j := range p {
 			shuffled = append(shuffled, ops[j])
 		}
-		if len(shuffled) > 40 {
-			shuffled = shuffled[:40]
+		if len(shuffled) > maxOps {
+			shuffled = shuffled[:maxOps]
 		}
 		pl.Instances = append(pl.Instances, C17Instance{Base: rc.Base, Ops: shuffled})
 	}
